@@ -218,7 +218,12 @@ def composite_case(draw):
         for i in range(3):
             if not 0.0 <= p[i] < L:
                 p[i] = 0.0
+    warm_up = None
+    if draw(st.booleans()):
+        warm_up = {"positions": [[draw(gen.floats(0.0, 0.999)) for _ in range(3)] for _ in range(4)],
+                   "charges": draw(st.sampled_from([[2.0, -1.0, 1.0, -0.5], [-1.0, 1.0, 1.0, -1.0], [0.41, -0.82, 1.0, 1.0]]))}
     return {"direction": d, "positions": pos, "charges": [1.0, -1.0, 1.0, -1.0], "active": draw(st.integers(0, 3)),
+            "warm_up": warm_up,
             "ts": [float(draw(st.integers(0, 9))), draw(gen.floats(0.0, 0.999))], "expo": draw(gen.log_uniform(1e-2, 3.0)),
             "lifting": draw(st.sampled_from(["inside_first", "outside_first", "ratio"])),
             "lift_u": draw(gen.floats(0.0, 1.0))}
@@ -249,6 +254,21 @@ def body_composite(rec, **c):
     v = [0.0, 0.0, 0.0]
     v[c["direction"]] = 1.0
     active_root = c["active"] // 2
+    warm = c.get("warm_up")
+    if warm:
+        # the same (pooled) handler instance first treats another pair of composite objects, as in a run
+        warm_nodes = make_units(3, warm["positions"], warm["charges"], c["active"], v, c["ts"], two_level=True)
+        old = (mod_h.random, mod_l.random, mod_r.random)
+        mod_h.random = Scripted(expos=[c["expo"]] * 2, uniforms=[0.5], strict=False)
+        mod_l.random = Scripted(uniforms=[c["lift_u"]] * 2, strict=False)
+        mod_r.random = Scripted(uniforms=[c["lift_u"]] * 2, strict=False)
+        try:
+            t_warm = handler.send_event_time(warm_nodes)
+            if not math.isinf(t_warm.quotient) and not any(
+                    math.isnan(x) for n_ in leaves(warm_nodes) for x in n_.value.position):
+                handler.send_out_state()
+        finally:
+            mod_h.random, mod_l.random, mod_r.random = old
 
     def attempt(u):
         nodes = make_units(3, c["positions"], c["charges"], c["active"], v, c["ts"], two_level=True)
